@@ -462,19 +462,11 @@ class ExcelInPython:
         from string import ascii_uppercase
 
         def get_col():
-            array = []
-
-            def get_col_recursive(letters, _col):
-                parent = _col // len(letters)
-                child = _col % len(letters)
-
-                if parent > len(letters):
-                    array.append(get_col_recursive(letters, parent))
-                return (letters[parent - 1] if parent < len(letters) and parent else '') + (
-                    letters[child - 1] if child else '')
-
-            array.append(get_col_recursive(ascii_uppercase, col))
-            return ''.join(array)
+            letters, _col = '', col
+            while _col > 0:
+                _col, remainder = divmod(_col - 1, len(ascii_uppercase))
+                letters = ascii_uppercase[remainder] + letters
+            return letters
 
         if not args:
             return '$' + get_col() + '$' + str(row)
